@@ -433,6 +433,11 @@ func (f *formatter) fmtSbx(s string, b []byte, digits string) {
 	if f.widPresent && f.wid > width && !f.minus {
 		f.writePadding(f.wid - width)
 	}
+	// The encoding is appended to the buffer directly, not through the
+	// size-checked fmtbuf writers.
+	if len(*f.buf)+width > MaxStringLen {
+		panic(ErrStringLimit)
+	}
 	// Write the encoding directly into the output fmtbuf.
 	buf := *f.buf
 	if f.sharp {
